@@ -1,4 +1,5 @@
 import Cutplace.Proofs.RangeLemmas
+import Cutplace.Proofs.RangeParse
 /-
 C01  Range descriptions accept exactly the values they describe.
 Property theorems only; helper lemmas live in `Cutplace/Proofs/`.
@@ -88,6 +89,31 @@ theorem C01_upper_is_max (its : Items) (m : Int) (h : upperLimitOf its = some m)
       · rcases h3 with rfl | ⟨it', hit', heq⟩
         · exact ⟨it, by simp, hhi⟩
         · exact ⟨it', by simp [hit'], heq⟩
+
+/-- **Every well-formed description is accepted and means what it says.**  For every description
+with at least one item, `lower ≤ upper` in each item and pairwise disjoint items, written in any
+legal spelling (limits as decimal or `0x` hexadecimal integers with optional minus sign, as quoted
+single characters or as the symbolic names cr/ff/lf/tab/vt; `...`, `:` or `…` as separator; any
+number of blanks around the tokens), `Range(text)` succeeds, accepts a value exactly when it lies in
+one of the items, and stores the items in the order written.  Limits are bounded by CPython's
+`int()` conversion limit of 4300 decimal digits (`BoundedLimits`); beyond it the real code refuses
+the text (see the known finding). -/
+theorem C01_parse_render (d : RangeDesc) (sps : List ItemSp) (hw : WellFormed d) (hl : LegalSpelling d sps)
+    (hb : BoundedLimits d) (default : Option Str) :
+    ∃ r, Range.parse (render d sps) default = .ok r ∧ r.items = some (denote d) ∧
+      (∀ v, r.validate v = true ↔ Accepts d v) ∧
+      r.lowerLimit = lowerLimitOf (denote d) ∧ r.upperLimit = upperLimitOf (denote d) :=
+  ⟨rangeOfItems (denote d), parse_render d sps hw hl (convertible_of_bounded d sps hb) default, rfl,
+    fun v => C01_validate_iff d v, rfl, rfl⟩
+
+/-- non-vacuity of `C01_parse_render`: a description using every spelling meets its hypotheses -/
+example :
+    let d : RangeDesc := [.upto (-5), .single 65, .closed 9 13, .from_ 100]
+    let sps : List ItemSp := [⟨.dec, .dec, .ellipsis, (1, 2, 0, 1, 0)⟩, ⟨.quoted true, .dec, .dots, (0, 0, 1, 0, 0)⟩,
+      ⟨.sym false, .sym true, .colon, (1, 0, 1, 1, 1)⟩, ⟨.hex true false, .dec, .dots, (0, 0, 0, 0, 2)⟩]
+    WellFormed d ∧ LegalSpelling d sps ∧
+      render d sps = " … -  5,\"A\" , tab : CR ,0X64...".toList := by
+  refine ⟨by decide, by decide, by decide +kernel⟩
 
 /-- non-vacuity: a three item description with open ends meets the hypotheses and is decided -/
 example : Accepts [.upto (-5), .single 0, .closed 3 9] 4 ∧ ¬ Accepts [.upto (-5), .single 0, .closed 3 9] 2 ∧
